@@ -67,6 +67,8 @@ pub broadcast axiom fn axiom_head_whole(s: Seq<char>)
 
 /// The only changes `ingest_line_utf8` may make to the raw line: drop the LAST carriage return when
 /// nothing visible follows it; then, beyond the maximum length (and not for `@@`/`{` lines), truncate.
+/// C08: whether a line is one of the exempt kinds is a matter of its TEXT (what is left when the escape sequences are
+/// stripped) - git's colouring puts `ESC[36m` in front of the `@@` of a hunk header.
 pub open spec fn cr_removed_spec(r0: Seq<char>) -> Seq<char> {
     match str_rfind_spec(r0, seq!['\r']) {
         Some(i) => if width_spec(tail_spec(r0, i + 1)) == 0 { head_spec(r0, i as int) + tail_spec(r0, i + 1) } else { r0 },
@@ -75,7 +77,7 @@ pub open spec fn cr_removed_spec(r0: Seq<char>) -> Seq<char> {
 }
 pub open spec fn ingest_raw_spec(r0: Seq<char>, config: &Config) -> Seq<char> {
     let r1 = cr_removed_spec(r0);
-    if config.max_line_length > 0 && encode_utf8(r1).len() > config.max_line_length && !is_prefix("@@"@, r1) && !is_prefix(seq!['{'], r1) {
+    if config.max_line_length > 0 && encode_utf8(r1).len() > config.max_line_length && !is_prefix("@@"@, strip_spec(r1)) && !is_prefix(seq!['{'], strip_spec(r1)) {
         truncate_spec(r1, config.max_line_length, config.truncation_symbol@)
     } else {
         r1
